@@ -39,3 +39,13 @@ Theorem C06_commit_never_decreases : forall st r m r' e,
 Proof. exact step_mono. Qed.
 Print Assumptions C06_commit_never_decreases.
 
+
+(* the follower side: an accepted MsgApp moves the commit index to min(leader's commit, end of the
+   prefix the message proved equal to the leader's log) and no further (Proofs/ProposalProofs.v) *)
+From RaftV Require ProposalProofs.
+Theorem C06_follower_commit_clamped : forall st l pi pt ents c l' last,
+  l_maybe_append st l pi pt ents c = Ok (l', Some last) ->
+  last = pi + nlen ents /\
+  l_committed l' = N.max (l_committed l) (N.min c (pi + nlen ents)).
+Proof. exact ProposalProofs.follower_commit_clamped. Qed.
+Print Assumptions C06_follower_commit_clamped.
